@@ -95,7 +95,7 @@ func runC07Late(rc *RunCtx, i int) {
 		recvStarted.Store(true)
 		gotA <- <-chA
 	}()
-	ctx, cancel := context.WithTimeout(context.Background(), 5*time.Second)
+	ctx, cancel := context.WithTimeout(context.Background(), core.Patience)
 	defer cancel()
 	if err := e.IngestRows(ctx, rowsA, chA); err != nil {
 		rc.Violate(i, "scenario-failed", "", "IngestRows A: "+err.Error(), desc)
@@ -142,7 +142,7 @@ func runC07Late(rc *RunCtx, i int) {
 	laterAnswered.Store(true) // release the receiver in every case
 	select {
 	case <-gotA:
-	case <-time.After(20 * time.Second):
+	case <-time.After(core.Patience):
 		rc.Res.Inconc("C07 late-receiver: batch A not answered 20 s after its receiver started")
 		return
 	}
@@ -320,7 +320,7 @@ func runC07(rc *RunCtx, i int) {
 			if !ok {
 				return
 			}
-			ctx, cancel := context.WithTimeout(context.Background(), 60*time.Second)
+			ctx, cancel := context.WithTimeout(context.Background(), core.Patience)
 			res := world.RunQuery(ctx, e, &bs.Query{})
 			cancel()
 			rc.Res.Count("visibility_queries", 1)
@@ -398,7 +398,7 @@ func runC07(rc *RunCtx, i int) {
 		return
 	}
 	// final barrier
-	ctx, cancel := context.WithTimeout(context.Background(), 60*time.Second)
+	ctx, cancel := context.WithTimeout(context.Background(), core.Patience)
 	ferr := e.Flush(ctx)
 	cancel()
 	finalTick := clock.Tick()
